@@ -36,6 +36,7 @@ static void load_program(VM &vm) {
   for (int i = 0; i < CTV_NSITES; i++) {
     BreakPoint bp = {SITE_FILE[i] == 0 ? std::string("m") : std::string("i"), SITE_LINE[i]};
     vm.code.line_info[SITE_IDX[i]] = bp;
+    vm.code.potential_breaks[bp].push_back(SITE_IDX[i]);
   }
 }
 
@@ -95,16 +96,24 @@ static bool views_equal(const Ev &e, const VEv &v) {
   return ok;
 }
 
-extern "C" void h_ctv() {
-  sym_lits();
-  Program p; VM vm(p);
-  load_program(vm);
-  vm.setSteppingMode(true);
+// symbolic debugger request (C05: must not influence the computation): enable/disable a symbolic listed line, clear, or nothing
+static void debugger_action(VM &vm) {
+  int kind = nondet_int();
+  if (kind == 1) {
+    int j = nondet_int(); ASSUME(j >= 0 && j < CTV_NSITES);
+    bool r = vm.setBreakPoint(SITE_FILE[j] == 0 ? std::string("m") : std::string("i"), SITE_LINE[j], nondet_bool());
+    ASSERT(r, "C06: enabling or disabling a location listed as available succeeds");
+  } else if (kind == 2) vm.clearBreakpoints();
+}
+
+// complete stepping run of vm next to the reference interpreter, with all comparisons; with_actions: symbolic debugger requests at two points of the run
+static void run_and_compare(VM &vm, bool with_actions) {
   Ref R; ref_init(R); n_rev = 0; n_vev = 0;
   for (int s = 0; s < CTV_F; s++) ref_step(R);
   ASSUME(R.in_range);                       // C01/C07 are stated for executions whose values stay below 2^31-1
   bool vm_done = false; int vm_steps = 0; int maxdepth = 0;
   for (int s = 0; s < CTV_KV; s++) if (!vm_done) {
+    if (with_actions && (s == 0 || s == CTV_KV / 3)) debugger_action(vm);   // two symbolic debugger requests (one per step is intractable)
     OpCode o = V_AT(vm.code.code, vm.instruction_pointer).op;
     bool stop = vm.executeSingle(); vm_steps++;
     if (V_N(vm.stack) > maxdepth) maxdepth = V_N(vm.stack);
@@ -122,7 +131,7 @@ extern "C" void h_ctv() {
   CEX_nev_vm = n_vev; CEX_nev_ref = n_rev; CEX_vm_done = vm_done; CEX_ref_done = R.done; CEX_ref_steps = R.steps; CEX_vm_steps = vm_steps;
   // --- C16: the activation stack never grows beyond the number of program definitions plus one
   ASSERT(maxdepth <= CTV_NR, "C16: activation stack depth <= number of program definitions + 1");
-  // --- halting in both directions (budgets: CTV_F reference steps, CTV_KV VM steps; 1 + cost = VM instructions the reference run corresponds to)
+  // --- halting in both directions (budgets: CTV_F reference steps, CTV_KV VM steps; base + cost = VM instructions the reference run corresponds to)
   const long base_cost = 1 + (CTV_NR - 1);   // root PREPARE + one JMP over every program definition
   bool ref_in_budget = R.done && base_cost + R.cost <= CTV_KV;
   if (ref_in_budget) ASSERT(vm_done, "C01: the VM halts when the reference execution halts (within the proportional budget)");
@@ -130,7 +139,6 @@ extern "C" void h_ctv() {
   if (ref_in_budget && vm_done) {
     ASSERT(vm_steps == base_cost + R.cost, "C16: the VM halts after exactly the number of steps fixed by the reference execution (loop bounds at entry)");
     ASSERT(n_vev == n_rev, "C07: stepping reports exactly as many stops as the reference has line events");
-    // final variables: compare through the last state (a final pseudo event)
     VEv fin; fin.depth = V_N(vm.stack); fin.line = 0; fin.file = 0;
     for (int k = 0; k <= CTV_MAXDEPTH; k++) if (k < fin.depth) { fin.dbg[k] = V_AT(vm.stack, k).debug_info; fin.start[k] = V_AT(vm.stack, k).data_start; }
     for (int i = 0; i < CTV_DW; i++) fin.data[i] = i < V_N(vm.data) ? V_AT(vm.data, i) : 0;
@@ -146,7 +154,79 @@ extern "C" void h_ctv() {
   ASSERT(loc_ok, "C07: the k-th stop of the stepping run is on the line of the k-th reference line event");
   ASSERT(view_ok, "C07: at every stop every user variable of every activation has its reference value");
   ASSERT(n_vev <= CTV_NEV && n_rev <= CTV_NEV, "ministl: event buffer of the harness (model bound)");
+}
+
+extern "C" void h_ctv() {
+  sym_lits();
+  Program p; VM vm(p);
+  load_program(vm);
+  vm.setSteppingMode(true);
+  run_and_compare(vm, false);
   ASSERT(0, "WITNESS: end of h_ctv reachable");
+}
+
+// Stepping run through the public resume call only (C06/C17): execute() until isDone(); every return of execute() is a stop whose location
+// and variable views must be those of the next reference line event; at the end further execute()/executeSingle() calls change nothing.
+extern "C" void h_ctv_exec() {
+  sym_lits();
+  Program p; VM vm(p);
+  load_program(vm);
+  BreakPoint b0 = vm.getCurrentBreak();
+  ASSERT(b0.line == -1, "C06: before execution starts no current location is reported");
+  vm.setSteppingMode(true);
+  Ref R; ref_init(R); n_rev = 0; n_vev = 0;
+  for (int s = 0; s < CTV_F; s++) ref_step(R);
+  ASSUME(R.in_range);
+  const long base_cost = 1 + (CTV_NR - 1);
+  ASSUME(R.done && base_cost + R.cost <= CTV_KV && n_rev <= CTV_NEV);     // bound: executions inside the step and event budgets
+  bool done = false;
+  for (int e = 0; e <= CTV_NEV; e++) if (!done) {
+    vm.execute();
+    if (vm.isDone() && V_AT(vm.code.code, vm.instruction_pointer - 1 >= 0 ? vm.instruction_pointer - 1 : 0).op != OpCode::POTENTIAL_BREAK) done = true;
+    else {
+      BreakPoint bp = vm.getCurrentBreak();
+      if (n_vev < CTV_NEV) {
+        VEv &v = vev[n_vev]; v.line = bp.line; v.file = (bp.file == std::string("m")) ? 0 : (bp.file == std::string("i")) ? 1 : 2; v.depth = V_N(vm.stack);
+        for (int k = 0; k <= CTV_MAXDEPTH; k++) if (k < v.depth) { v.dbg[k] = V_AT(vm.stack, k).debug_info; v.start[k] = V_AT(vm.stack, k).data_start; }
+        for (int i = 0; i < CTV_DW; i++) v.data[i] = i < V_N(vm.data) ? V_AT(vm.data, i) : 0;
+      }
+      n_vev++;
+    }
+  }
+  ASSERT(done && vm.isDone(), "C06: resuming repeatedly reaches the end of the program when the reference execution ends");
+  ASSERT(n_vev == n_rev, "C06: execute() returns exactly once per breakpoint site on the path while stepping (as many stops as reference line events)");
+  bool loc_ok = true, view_ok = true;
+  for (int e = 0; e < CTV_NEV; e++) if (e < n_vev && e < n_rev) { loc_ok = loc_ok && vev[e].line == rev[e].line && vev[e].file == rev[e].file; view_ok = view_ok && views_equal(rev[e], vev[e]); }
+  ASSERT(loc_ok, "C06: every return of execute() reports the file and line of the site it stopped on");
+  ASSERT(view_ok, "C07: at every stop every user variable of every activation has its reference value");
+  // absorbing end
+  Snap a, b; snap(vm, a); vm.execute(); vm.executeSingle(); vm.execute(); snap(vm, b);
+  ASSERT(snap_eq(a, b) && vm.isDone(), "C17: once the end of the program is reached further execute / executeSingle calls change nothing");
+  ASSERT(0, "WITNESS: end of h_ctv_exec reachable");
+}
+
+// History variant (C17, independent of the representation of the VM): CTV_K1 steps with a symbolic stepping flag, then reset(), then the
+// complete stepping run; everything must be as on a fresh machine, i.e. as the reference says.  (Symbolic breakpoint requests inside the
+// run were measured intractable - 600 s for two requests on a 16-instruction program - and are covered by the layer-A lemmas of C05/C06.)
+#ifndef CTV_K1
+#define CTV_K1 0
+#endif
+extern "C" void h_ctv_hist() {
+  sym_lits();
+  Program p; VM vm(p);
+  load_program(vm);
+  vm.setSteppingMode(nondet_bool());
+  bool halted = false;
+  for (int s = 0; s < CTV_K1; s++) if (!halted) {
+    if (V_AT(vm.code.code, vm.instruction_pointer).op == OpCode::HALT) halted = true; else vm.executeSingle();
+  }
+  int depth_at_reset = V_N(vm.stack);
+  vm.reset();
+  ASSERT(vm.getCurrentBreak().line == -1 && V_N(vm.getEnabledBreakPoints()) == 0 && !vm.isSteppingModeEnabled() && V_N(vm.getActivations()) == 0, "C17: after reset the machine reports no location, no enabled breakpoint, no stepping, no activation");
+  vm.setSteppingMode(true);
+  run_and_compare(vm, false);
+  (void)depth_at_reset;
+  ASSERT(0, "WITNESS: end of h_ctv_hist reachable");
 }
 
 // C03(ii): the solver searches a routine annotation under which the compiled program is well-formed (expected: found)
